@@ -93,6 +93,16 @@ CustomPalette == SetColors(CustomColors).pal
 Palettes == {DefaultPalette, CustomPalette}
 
 \* the laws ------------------------------------------------------------------
+\* the position-by-position forms used for long strings agree with the left-to-right scans: on every string of
+\* the universe and on every string of length <= 4 over bytes that combine into 2-, 3- and 4-byte sequences
+MbAlphabet == {65, 128, 152, 159, 194, 226, 240}
+MbStrings == {<<a, b, c>> : a \in MbAlphabet, b \in MbAlphabet, c \in MbAlphabet}
+               \cup {<<a, b, c, d>> : a \in MbAlphabet, b \in MbAlphabet, c \in MbAlphabet, d \in MbAlphabet}
+FastForms(s) == /\ EncStringFast(s) = EncStringScan(s)
+                /\ ToValidFast(s) = ToValidScan(s)
+                /\ ValidUtf8Fast(s) = ValidUtf8(s)
+FastLaws == \A s \in MbStrings \cup Longer : FastForms(s)
+
 NoRawControl(s) == \A i \in 1..Len(s) : s[i] >= 32 /\ s[i] # 127
 RECURSIVE HasCollision(_)
 HasCollision(v) ==
@@ -125,6 +135,7 @@ ToText(v) ==
 
 LibLaws(v) ==
   LET e == Enc(v) IN
+  /\ (v.t = "str" => FastForms(v.b))
   /\ ValidUtf8(e)                                           \* the text is valid UTF-8
   /\ NoRawControl(e)                                        \* no control character (or DEL) is written raw
   /\ Dec(e) = [ok |-> TRUE, v |-> Norm(v)]                  \* well-formed JSON that reads back equal; tojson|fromjson
@@ -149,9 +160,15 @@ CliLaws(v, c) ==
      /\ \A p \in Palettes :
           LET col == CliBytes(v, c, p) IN
           /\ StripSGR(col) = plain                          \* colour only adds SGR sequences
+          /\ StripSGRScan(col) = plain                      \* (both formulations of StripSGR)
           /\ ValidUtf8(col)
 
 Laws(v) == LibLaws(v) /\ \A c \in BaseCfgs : CliLaws(v, c)
+
+\* texts with broken, nested and adjacent SGR sequences (raw output can contain anything)
+SgrTexts == { <<27, 91, 109>>, <<27, 91, 49, 109, 27, 91, 48, 109>>, <<27, 91, 49, 27, 91, 48, 109, 109>>, <<27, 27, 91, 51, 59, 109, 120>>,
+              <<27, 91, 49, 120, 109>>, <<91, 49, 109, 27, 91>>, <<27, 91, 59, 59, 109, 49, 109, 27>>, <<49, 50, 109, 27, 91, 49, 50>>,
+              <<97, 27, 91, 51, 56, 59, 53, 59, 50, 48, 56, 109, 98, 27, 91, 48, 109, 99, 100, 101, 102, 103, 104, 105, 106, 107, 108, 109, 110>> }
 
 \* GOJQ_COLORS parsing (setColors / validColor)
 ColorLaws ==
@@ -163,6 +180,7 @@ ColorLaws ==
   /\ ~SetColors(<<49, 59>>).ok /\ ~SetColors(<<59, 49>>).ok /\ ~SetColors(<<58, 120>>).ok /\ ~SetColors(<<49, 59, 59, 50>>).ok
   /\ SetColors(<<58, 58, 58, 58, 58, 58, 58, 58, 120>>).ok                             \* a ninth field is never looked at
   /\ PaletteOf(TRUE, <<>>).pal = DefaultPalette /\ PaletteOf(FALSE, <<120>>).pal = NoPalette
+  /\ \A t \in SgrTexts : StripSGR(t) = StripSGRScan(t)
 
 \* state space -----------------------------------------------------------------
 Parts == 64
@@ -171,6 +189,6 @@ vars == <<phase, part, idx>>
 Init == phase = 0 /\ part = 0 /\ idx = 0
 Next == \/ phase = 0 /\ phase' = 1 /\ part' \in 1..Parts /\ idx' = 0
         \/ phase = 1 /\ phase' = 2 /\ part' = part /\ idx' \in {i \in 1..NU : i % Parts = part % Parts}
-Inv == /\ (phase = 0 => ColorLaws)
+Inv == /\ (phase = 0 => ColorLaws /\ FastLaws)
        /\ (phase = 2 => Laws(USeq[idx]))
 =============================================================================
